@@ -136,21 +136,33 @@ impl Ctx {
     }
 
     pub fn rng_draw(&mut self, len: usize) -> Vec<u8> {
-        let v = self.var(&format!("rng#{}", self.rng_log.len()));
+        let k = self.rng_log.len();
+        let v = self.var(&format!("rng#{k}"));
         self.rng_log.push((len, v));
         let mut out = vec![0u8; len];
         if self.cfg.dense {
-            let val = self.eval(0, v);
-            let b = val.to_le_bytes();
-            let n = len.min(32);
-            out[..n].copy_from_slice(&b[..n]);
+            // pseudo-random constant bytes (world-0 values of the chunk variables)
+            for (j, ch) in out.chunks_mut(32).enumerate() {
+                let vj = if j == 0 { v } else { self.var(&format!("rng#{k}.{j}")) };
+                let val = self.eval(0, vj);
+                let b = val.to_le_bytes();
+                let n = ch.len();
+                ch.copy_from_slice(&b[..n]);
+            }
             return out;
         }
         if len < 32 {
             self.fail("rng", format!("request of {len} bytes is shorter than a symbolic block"), true);
             return out;
         }
-        out[..32].copy_from_slice(&block32(TAG_R, v));
+        // every 32-byte chunk of the answer is its own fresh symbolic block
+        for (j, ch) in out.chunks_mut(32).enumerate() {
+            if ch.len() < 32 {
+                break; // a trailing partial chunk stays zero (no caller in scope asks for one)
+            }
+            let vj = if j == 0 { v } else { self.var(&format!("rng#{k}.{j}")) };
+            ch.copy_from_slice(&block32(TAG_R, vj));
+        }
         out
     }
 }
